@@ -65,6 +65,21 @@ class HttpTransport(Protocol):
         raise NotImplementedError()
 
 
+def _header_text(value: Any) -> Any:
+    """A header value as httpx accepts it: str / bytes as they are, anything else as text (OpenAPI `simple` style).
+
+    The generated methods pass integer, number, boolean and array header parameters with their Python values;
+    httpx rejects every header value that is not str or bytes.
+    """
+    if isinstance(value, (str, bytes)):
+        return value
+    if isinstance(value, bool):
+        return "true" if value else "false"
+    if isinstance(value, (list, tuple)):
+        return ",".join(str(_header_text(item)) for item in value)
+    return str(value)
+
+
 class HttpxTransport:
     """
     A concrete implementation of the HttpTransport protocol using the `httpx` library.
@@ -134,7 +149,9 @@ class HttpxTransport:
 
         # 2. Merge headers passed specifically for this request (overriding transport defaults)
         if "headers" in current_request_kwargs and isinstance(current_request_kwargs["headers"], dict):
-            prepared_headers.update(current_request_kwargs["headers"])
+            prepared_headers.update(
+                {name: _header_text(value) for name, value in current_request_kwargs["headers"].items()}
+            )
 
         # 3. Apply authentication plugin or bearer token (which can further modify headers)
         # We pass a temporary request_args dict containing only the headers to the auth plugin,
